@@ -151,8 +151,9 @@ package file
 //@ func ValidateODSQ4Size
 //@   property C07
 //@   requires !$FdOpen
-//@   havoc $Complete $FdOpen
+//@   havoc $Complete $FdOpen $ValidOK
 //@   ensures $Complete <==> err == nil
+//@   ensures err == nil ==> $ValidOK
 
 // The validators accept a file only when its size is exactly the size a complete file has.
 //@ pure func statSize(i fs.FileInfo) int
@@ -163,6 +164,7 @@ package file
 //@ func ValidateODSSize
 //@   property C07
 //@   effect $Complete := err == nil
+//@   effect $ValidOK := err == nil
 //@   checks err == nil ==> statSize(info) == expectedSize && expectedSize == ods.hdr.OffsetWithRoots() + shares*shareSize
 
 //@ func (*headerV0).OffsetWithRoots
